@@ -307,9 +307,118 @@ def regenerate():
     return errors, meta, changed
 
 
+
+
+# ======================================================================================= T-block
+# Parent-side blocking structure of wait()/terminate(): every call that can block, with the expression
+# that bounds it, the guard that normalises the remote timeout, and the shape of the returned value.
+BLOCK_METHODS = [
+    ('threadWait', 'pyworkers.thread', 'ThreadWorker', 'wait'),
+    ('threadTerminate', 'pyworkers.thread', 'ThreadWorker', 'terminate'),
+    ('processWait', 'pyworkers.process', 'ProcessWorker', 'wait'),
+    ('processTerminate', 'pyworkers.process', 'ProcessWorker', 'terminate'),
+    ('remoteWait', 'pyworkers.remote', 'RemoteWorker', 'wait'),
+    ('remoteTerminate', 'pyworkers.remote', 'RemoteWorker', 'terminate'),
+    ('pthreadWait', 'pyworkers.persistent_thread', 'PersistentThreadWorker', 'wait'),
+    ('pprocessWait', 'pyworkers.persistent_process', 'PersistentProcessWorker', 'wait'),
+]
+BOUND_NAMES = {'timeout', 'remote_timeout'}
+
+
+def _blocking_ops(fn_node):
+    """list of (kind, bound) in source order; bound in {'timeout', 'none', 'peer', 'guarded'}"""
+    ops = []
+    guarded_get_lines = set()
+    for n in ast.walk(fn_node):
+        # `if X.poll(timeout): X.get()`  -> the get is guarded by a bounded poll
+        if isinstance(n, ast.If) and isinstance(n.test, ast.Call) and isinstance(n.test.func, ast.Attribute) and n.test.func.attr == 'poll':
+            for b in ast.walk(ast.Module(body=n.body, type_ignores=[])):
+                if isinstance(b, ast.Call) and isinstance(b.func, ast.Attribute) and b.func.attr in ('get', 'recv'):
+                    guarded_get_lines.add(b.lineno)
+    calls = sorted((n for n in ast.walk(fn_node) if isinstance(n, ast.Call)), key=lambda c: (c.lineno, c.col_offset))
+    for c in calls:
+        f = c.func
+        name = f.attr if isinstance(f, ast.Attribute) else (f.id if isinstance(f, ast.Name) else None)
+        if name in ('join', 'poll'):
+            arg = c.args[0] if c.args else (c.keywords[0].value if c.keywords else None)
+            if arg is None:
+                ops.append((name, 'none'))
+            elif isinstance(arg, ast.Name) and arg.id in BOUND_NAMES:
+                ops.append((name, 'timeout'))
+            else:
+                ops.append((name, 'other'))
+        elif name in ('get', 'recv') and isinstance(f, ast.Attribute) and 'parent_end' in ast.unparse(f.value):
+            ops.append(('get', 'guarded' if c.lineno in guarded_get_lines else 'none'))
+        elif name == 'recv_msg':
+            ops.append(('recvMsg', 'peer'))
+        elif name == 'wait' and isinstance(f, ast.Attribute) and ast.unparse(f.value).endswith('_startup_sync'):
+            ops.append(('eventWait', 'none'))
+        elif name == 'accept':
+            ops.append(('accept', 'none'))
+    return ops
+
+
+def _timeout_guard(fn_node):
+    """the test of the `if` that derives remote_timeout from timeout: 'isNotNone' | 'truthy' | 'other' | 'absent'"""
+    for n in ast.walk(fn_node):
+        if isinstance(n, ast.If) and any(isinstance(t, ast.Assign) and ast.unparse(t.targets[0]) == 'remote_timeout' for t in ast.walk(ast.Module(body=n.body, type_ignores=[]))):
+            txt = ast.unparse(n.test)
+            if txt == 'timeout is not None':
+                # and inside: remote_timeout = timeout if remote_timeout is None else min(remote_timeout, timeout)
+                inner = ast.unparse(ast.Module(body=n.body, type_ignores=[]))
+                if 'min(remote_timeout, timeout)' in inner and 'remote_timeout = timeout' in inner:
+                    return 'isNotNone'
+                return 'other'
+            if txt == 'timeout':
+                return 'truthy'
+            return 'other'
+    return 'absent'
+
+
+def _returns_not_alive(fn_node):
+    """every `return <expr>` of the method is `True`, `False`/`not alive` (alive read from the child right before)"""
+    ok = True
+    for n in ast.walk(fn_node):
+        if isinstance(n, ast.Return) and n.value is not None:
+            txt = ast.unparse(n.value)
+            if txt not in ('True', 'False', 'not alive', 'super().wait(*args, **kwargs)'):
+                ok = False
+    src = ast.unparse(fn_node)
+    if 'return not alive' in src and 'alive = self._child.is_alive()' not in src:
+        ok = False
+    return ok
+
+
+def generate_blocking():
+    sys.path.insert(0, str(REPO))
+    out = ['import PwVerif.Model.Blocking', '/-! GENERATED by harness/translate.py (T-block) from /repo - do not edit. -/', 'namespace PwVerif.Gen', 'open PwVerif.Blocking', '']
+    errors = []
+    for name, mod, cls, fn in BLOCK_METHODS:
+        try:
+            c = getattr(importlib.import_module(mod), cls)
+            t = Translator(c)
+            node, path = t.func_ast(fn)
+            ops = _blocking_ops(node)
+            out.append(f'/-- `{cls}.{fn}` ({path.name}:{node.lineno}) -/')
+            out.append(f'def {name} : Method :=\n  {{ ops := [' + ', '.join(f'⟨.{k}, .{b}⟩' for k, b in ops) + f'],\n    guard := .{_timeout_guard(node)}, returnsNotAlive := {"true" if _returns_not_alive(node) else "false"},\n    checksNegative := {"true" if "Negative timeout" in ast.unparse(node) else "false"} }}\n')
+        except Exception as e:
+            errors.append(f'{name}: {type(e).__name__}: {e}')
+            out.append(f'def {name} : Method := {{ ops := [⟨.join, .none⟩], guard := .other, returnsNotAlive := false, checksNegative := false }}\n')
+    out.append('end PwVerif.Gen')
+    return '\n'.join(out) + '\n', errors
+
+
+def regenerate_blocking():
+    text, errors = generate_blocking()
+    changed = write_if_changed(LEAN / 'PwVerif' / 'Gen' / 'Blocking.lean', text)
+    return errors, changed
+
+
 if __name__ == '__main__':
     errs, meta, changed = regenerate()
     print('RunLoops.lean', 'rewritten' if changed else 'unchanged')
-    for e in errs:
+    errs2, changed2 = regenerate_blocking()
+    print('Blocking.lean', 'rewritten' if changed2 else 'unchanged')
+    for e in errs + errs2:
         print('UNTRANSLATABLE', e)
-    sys.exit(1 if errs else 0)
+    sys.exit(1 if errs or errs2 else 0)
